@@ -39,7 +39,7 @@ def lineTo (rev : List (Pt Float)) (e : Pt Float) : List (Pt Float) :=
       let div := GenF.Point.PerpDot da db
       let length := len da * len db
       if GenF.Equal (div / length) 0.0 then
-        let ext := if da.y < da.x then signbit da.x == signbit db.x else signbit da.y == signbit db.y
+        let ext := if da.y.abs < da.x.abs then signbit da.x == signbit db.x else signbit da.y == signbit db.y
         if ext then e :: rest else e :: rev
       else e :: rev
 
